@@ -165,11 +165,12 @@ func CreateTable(s *sim.Src, name string, fancy int, wantWithoutRowid bool, othe
 			case 2:
 				pk += " DESC"
 			}
-			if !wantWithoutRowid && strings.EqualFold(c.typ, "INTEGER") && !strings.Contains(pk, "DESC") && s.Chance(1, 5, "autoinc") {
-				pk += " AUTOINCREMENT"
-			}
+			autoinc := !wantWithoutRowid && strings.EqualFold(c.typ, "INTEGER") && !strings.Contains(pk, "DESC") && s.Chance(1, 5, "autoinc")
 			if exotic && s.Chance(1, 3, "pkconfl") {
 				pk += " ON CONFLICT REPLACE"
+			}
+			if autoinc {
+				pk += " AUTOINCREMENT"
 			}
 			cons = append(cons, pk)
 		}
